@@ -198,7 +198,12 @@ def run(prog):
     if fn is not None:
         te = fn.terms
         errs = []
-        muls = [cs for cs in te.calls if cs.callee.name == "mul" and len(cs.args) == 2]
+        from . import canon
+        muls = []
+        for g_ in canon.local_bodies(prog, fn, ok=lambda h: h.impl_self == fn.impl_self):
+            for cs in g_.terms.calls:
+                if cs.callee.name == "mul" and len(cs.args) == 2:
+                    muls.append((g_, cs))
         n_ok = 0
 
         def lookup_lit(t):
@@ -213,8 +218,14 @@ def run(prog):
             while t[0] in ("deref", "copy"):
                 t = strip(t[1])
             return (t[2], t[1]) if t[0] == "field" and t[2] in ("0", "1") else (None, None)
-        for cs in muls:
+        for g_, cs in muls:
+            te = g_.terms
             w = strip(cs.args[1])
+            # the factor computed by a private helper (`self.literal_weight(lit)`): look at what it returns
+            if mir.is_call(w) and (w[1].local or getattr(w[1], "res_local", False)):
+                hs = [h for h in prog.resolve(w[1]) if h.kind != "Closure"]
+                if len(hs) == 1 and hs[0].terms.ret is not None:
+                    w = strip(canon.subst(hs[0].terms.ret, {i + 1: a for i, a in enumerate(w[2])}))
             alts = []
             if w[0] == "gamma" and mir.is_call(strip(w[1]), "polarity"):
                 plit = strip(strip(w[1])[2][0])
